@@ -143,7 +143,8 @@ structure JSt where
   n : Node := {}
   obs : List (MsgKey × Obs) := []                 -- last observation of each message on the implementation
   firsts : List ((MsgKey × Bytes) × Triple) := [] -- result of the first durable application of an event id
-  pending : List (MsgKey × List Bytes) := []      -- lanes with acknowledged cache-only content since the last loss
+  pending : List (MsgKey × List Bytes) := []      -- lanes open in the leader cache, per the implementation's acknowledgements
+  sess : List MsgKey := []                        -- messages with a cache session since the last loss / finish
 
 def worst (a b : String) : String := if a == "ok" then b else a
 
@@ -169,31 +170,39 @@ def judgeEvent (j : JSt) (raw : RawEvent) (node : Bool) (impl : String) : JSt ×
         let prev := (aget ev.msg j.obs).getD {}
         let v0 := judgeObs j ev.msg new
         let trip : Triple := (k, sq, st)
-        let v1 := match aget (ev.msg, ev.id) j.firsts with
-          | some f => if replayOk f prev new (some trip) then "ok"
-                      else if prev.cur != new.cur then "viol:replay-applied-twice" else "viol:replay-result-differs"
-          | none => "ok"
         let durable := !node || !(ev.ty == .open_ || ev.ty == .delta || ev.ty == .snapshot)
+        let v1 := match aget (ev.msg, ev.id) j.firsts with
+          | some f => if replayOk ev.id f new durable (some trip) then "ok"
+                      else if !replayOk ev.id f new false none then "viol:replay-applied-twice" else "viol:replay-result-differs"
+          | none => "ok"
         -- record the first durable application (the cursor moved and the result carries the new seq)
         let firsts := if durable && (aget (ev.msg, ev.id) j.firsts).isNone && prev.cur < new.cur && sq == new.cur
           then aput (ev.msg, ev.id) trip j.firsts else j.firsts
         let pend := (aget ev.msg j.pending).getD []
-        let (pending, v2) :=
-          if !node then (j.pending, "ok")
+        let hasSess := j.sess.contains ev.msg
+        let addK := if pend.contains k then pend else k :: pend
+        let (pending, sess, v2) :=
+          if !node then (j.pending, j.sess, "ok")
           else if !durable then
-            (if st.terminal then j.pending else aput ev.msg (if pend.contains k then pend else k :: pend) j.pending, "ok")
+            -- acknowledged cache-only event: the session exists; an open lane now holds non-durable content
+            (if st.terminal then j.pending else aput ev.msg addK j.pending,
+             if hasSess then j.sess else ev.msg :: j.sess, "ok")
           else if ev.ty == .finish then
             let v := if pend.isEmpty && !hasSnapshot ev.pl then "viol:finish-not-fail-closed"
                      else if !finishCovers pend new then "viol:finish-dropped-cached-lane" else "ok"
-            (adel ev.msg j.pending, v)
-          else (aput ev.msg (pend.filter (· != k)) j.pending, "ok")
-        ({ j with obs := aput ev.msg new j.obs, firsts := firsts, pending := pending }, worst v0 (worst v1 v2))
+            (adel ev.msg j.pending, j.sess.filter (· != ev.msg), v)
+          else
+            -- close/error/cancel: markTerminalPersisted copies the returned lane into an existing session
+            -- (a replayed id may return a lane that is still open: it is then open in the cache too)
+            if !hasSess then (j.pending, j.sess, "ok")
+            else (aput ev.msg (if st.terminal then pend.filter (· != k) else addK) j.pending, j.sess, "ok")
+        ({ j with obs := aput ev.msg new j.obs, firsts := firsts, pending := pending, sess := sess }, worst v0 (worst v1 v2))
       | _, _, _, _ => (j, "viol:unparseable-output")
     | _ => (j, "viol:unparseable-output")
 
 def c40Step (j : JSt) (op impl : String) : JSt × String × String :=
   match fields op with
-  | ["lose"] => ({ j with n := loseCache j.n, pending := [] }, "ok", "ok")
+  | ["lose"] => ({ j with n := loseCache j.n, pending := [], sess := [] }, "ok", "ok")
   | ["q", ch, ct, no] =>
     match hexDecode ch, pInt64 ct, hexDecode no with
     | some ch, some ct, some no =>
